@@ -5,6 +5,8 @@
   ./check selftest sensitivity [names] apply each mutant to a scratch copy of the repo (outside /repo and
                                        /verif, removed afterwards), confirm the pinned tests still pass there,
                                        and require the listed check to report a violation at quick tier
+  ./check selftest benign [names]      apply each behaviour-preserving change (global lock, bounded cache, clock read moved,
+                                       ...) to a scratch copy and require every check to stay quiet
   ./check selftest digest PROP N       (internal) print the per-run digests as JSON
 """
 import hashlib
@@ -141,10 +143,34 @@ MUTANTS = [
      "    global _scratch\n    _scratch = (lval, rval)\n    lval, ltype = value_and_type(_scratch[0])\n    rval, rtype = value_and_type(_scratch[1])\n    conversions = IMPLICIT_DATA_TYPE_CONVERSIONS[op]", ['C03']),
     ('busy_flag_without_finally', 'hotxlfp/parser.py', "        result = None\n        error = None\n        try:\n            if expression == '':\n                result = ''\n            else:\n                result = self.parser.parse(expression)",
      "        result = None\n        error = None\n        if self.__dict__.get('_busy'):\n            return {'result': None, 'error': '#ERROR!'}\n        try:\n            if expression == '':\n                result = ''\n            else:\n                self._busy = True\n                result = self.parser.parse(expression)\n                self._busy = False", ['C02', 'C03']),
+    ('per_parser_plain_lock', 'hotxlfp/parser.py', "    def parse(self, expression):\n        result = None",
+     "    def parse(self, expression):\n        with self._lock:\n            return self._parse_locked(expression)\n\n    def _parse_locked(self, expression):\n        result = None", ['C03']),
     ('range_rows_only_normalised', 'hotxlfp/parser.py', "        if start_col.index <= end_col.index:", "        if True:", ['C10']),
 ]
 
+# Changes under which every property still HOLDS: no check may raise an alarm (or a harness error) on them.
+BENIGN = [
+    ('benign_global_rlock_around_parse', 'hotxlfp/parser.py', "    def parse(self, expression):\n        result = None",
+     "    def parse(self, expression):\n        with _PARSE_LOCK:\n            return self._parse_locked(expression)\n\n    def _parse_locked(self, expression):\n        result = None"),
+    ('benign_per_parser_rlock', 'hotxlfp/parser.py', "    def parse(self, expression):\n        result = None",
+     "    def parse(self, expression):\n        with self._lock:\n            return self._parse_locked(expression)\n\n    def _parse_locked(self, expression):\n        result = None"),
+    ('benign_bounded_lru_cache', 'hotxlfp/helper/cell.py', "def column_label_to_index(label):", "@functools.lru_cache(maxsize=2048)\ndef column_label_to_index(label):"),
+    ('benign_clock_read_moved_to_utils', 'hotxlfp/formulas/dateandtime.py', "    return datetime.datetime.now()", "    return utils.current_time()"),
+    ('benign_rand_uses_uniform', 'hotxlfp/formulas/mathtrig.py', "    return random.random()", "    return random.uniform(0, 1)"),
+    ('benign_base_error_code', 'hotxlfp/formulas/mathtrig.py', "    if not 0 <= value < 2 ** 53 or not 2 <= base <= 36:\n        return error.NUM", "    if not 0 <= value < 2 ** 53 or not 2 <= base <= 36:\n        return error.VALUE"),
+    ('benign_off_without_defaultdict_entry', 'hotxlfp/tinyemitter.py', "        if live_events:\n            self._e[name] = live_events\n        else:\n            del self._e[name]",
+     "        if live_events:\n            self._e[name] = live_events\n        else:\n            self._e.pop(name, None)"),
+    ('benign_strip_leading_equals', 'hotxlfp/parser.py', "            if expression == '':\n                result = ''", "            if expression.startswith('='):\n                expression = expression[1:]\n            if expression == '':\n                result = ''"),
+]
+
 EXTRA_EDITS = {
+    'benign_global_rlock_around_parse': [('hotxlfp/parser.py', "import traceback\n", "import traceback\nimport threading\n\n_PARSE_LOCK = threading.RLock()\n")],
+    'benign_per_parser_rlock': [('hotxlfp/parser.py', "import traceback\n", "import traceback\nimport threading\n"),
+                                ('hotxlfp/parser.py', "        self.debug = debug\n", "        self.debug = debug\n        self._lock = threading.RLock()\n")],
+    'per_parser_plain_lock': [('hotxlfp/parser.py', "import traceback\n", "import traceback\nimport threading\n"),
+                              ('hotxlfp/parser.py', "        self.debug = debug\n", "        self.debug = debug\n        self._lock = threading.Lock()\n")],
+    'benign_bounded_lru_cache': [('hotxlfp/helper/cell.py', "import re\n", "import re\nimport functools\n")],
+    'benign_clock_read_moved_to_utils': [('hotxlfp/formulas/utils.py', "def any_is_error(iterable):", "def current_time():\n    return datetime.datetime.now()\n\n\ndef any_is_error(iterable):")],
     # second edit of a two-site mutant: (file, old, new)
     'cache_by_formula_text': [('hotxlfp/parser.py', "        return {'result': result, 'error': error}", "        cache[expression] = {'result': result, 'error': error}\n        return {'result': result, 'error': error}")],
     'class_level_bindings': [('hotxlfp/parser.py', "class Parser(Emitter):\n", "class Parser(Emitter):\n    _shared_variables = {'TRUE': True, 'FALSE': False, 'NULL': None}\n    _shared_functions = {}\n")],
@@ -220,6 +246,55 @@ def cmd_sensitivity(argv):
     return 1 if missed else 0
 
 
+def cmd_benign(argv):
+    """Apply each behaviour-preserving change to a scratch copy; every check must stay quiet (exit 0)."""
+    want = set(argv)
+    base = tempfile.mkdtemp(prefix='hx-benign-')
+    results = []
+    t0 = time.time()
+    try:
+        for name, rel, old, new in BENIGN:
+            if want and name not in want:
+                continue
+            root = os.path.join(base, name)
+            shutil.copytree(REPO, root, ignore=shutil.ignore_patterns('.git', '__pycache__', '*.pyc'))
+            _apply(root, rel, old, new)
+            for (r2, o2, n2) in EXTRA_EDITS.get(name, []):
+                _apply(root, r2, o2, n2)
+            t = subprocess.run([sys.executable, '-m', 'pytest', '-q', '-x', '-p', 'no:cacheprovider', '--timeout=900'], cwd=root,
+                               stdout=subprocess.PIPE, stderr=subprocess.STDOUT, timeout=1800, env=dict(os.environ, PYTHONPATH=root))
+            row = {'change': name, 'tests_still_pass': t.returncode == 0, 'checks': {}}
+            evdir = os.path.join(base, name + '-evidence')
+            os.makedirs(evdir)
+            for prop in PROPS:
+                env = dict(os.environ, HXSIM_REPO=root, HXSIM_EVIDENCE_DIR=evdir, HXSIM_REPLAY_DIR=evdir)
+                t1 = time.time()
+                p = subprocess.run([os.path.join(VERIF, 'check'), prop, 'quick'], env=env, stdout=subprocess.PIPE,
+                                   stderr=subprocess.PIPE, timeout=3600)
+                out = p.stdout.decode(errors='replace')
+                row['checks'][prop] = {'exit': p.returncode, 'wall_s': round(time.time() - t1, 1),
+                                       'lines': [l for l in out.splitlines() if l.startswith(('VIOLATION', 'HARNESS', '  invariant'))][:4]}
+            row['quiet'] = all(c['exit'] == 0 for c in row['checks'].values())
+            results.append(row)
+            print('%-40s tests_pass=%s quiet=%s %s' % (name, row['tests_still_pass'], row['quiet'],
+                  ' '.join('%s:%d' % (k, v['exit']) for k, v in row['checks'].items())))
+            for k, v in row['checks'].items():
+                for l in v['lines']:
+                    print('    %s %s' % (k, l[:300]))
+            sys.stdout.flush()
+            shutil.rmtree(root, ignore_errors=True)
+            shutil.rmtree(evdir, ignore_errors=True)
+    finally:
+        shutil.rmtree(base, ignore_errors=True)
+    if not want:
+        with open(os.path.join(VERIF, 'evidence', 'selftest_benign.json'), 'w') as fh:
+            json.dump({'wall_s': round(time.time() - t0, 1), 'results': results}, fh, indent=1, sort_keys=True)
+    loud = [r['change'] for r in results if not r['quiet']]
+    print('benign self-test: %d/%d behaviour-preserving changes leave every check quiet%s' % (
+        len(results) - len(loud), len(results), '' if not loud else '; ALARMS ON: ' + ', '.join(loud)))
+    return 1 if loud else 0
+
+
 def main(argv):
     if not argv:
         print(__doc__)
@@ -230,5 +305,7 @@ def main(argv):
         return cmd_determinism(argv[1:])
     if argv[0] == 'sensitivity':
         return cmd_sensitivity(argv[1:])
+    if argv[0] == 'benign':
+        return cmd_benign(argv[1:])
     print(__doc__)
     return 2
